@@ -301,7 +301,8 @@ class World:
             self.ev("skipped", what="sub")
             return
         meth = op.get("method") or {"message": "subscribe_on_message_received",
-                                    "connection": "subscribe_on_connection_changed"}.get(kind, "subscribe")
+                                    "connection": "subscribe_on_connection_changed",
+                                    "ac_state": "subscribe_ac_state"}.get(kind, "subscribe")
         getattr(tgt, meth)(sub)
         self.ev("sub", who=who, kind=kind, target=op.get("target", "socket"), method=meth)
 
@@ -314,7 +315,8 @@ class World:
             return
         kind = op["kind"]
         meth = op.get("method") or {"message": "unsubcribe_on_message_received",
-                                    "connection": "unsubscribe_on_connection_changed"}.get(kind, "unsubscribe")
+                                    "connection": "unsubscribe_on_connection_changed",
+                                    "ac_state": "unsubscribe_ac_state"}.get(kind, "unsubscribe")
         getattr(tgt, meth)(sub)
         self.ev("unsub", who=who, kind=kind, target=op.get("target", "socket"), method=meth)
 
